@@ -389,7 +389,10 @@ def run_property(pid, tier, only=None, seed=0, jobs=None):
             return 2, None
         if only and name not in only:
             continue
-        if not only and cfg.get("tier", "quick") == "thorough" and tier != "thorough":
+        t = cfg.get("tier", "quick")
+        # tiers: quick < thorough; "experimental" harnesses (no verdict within the caps on this machine, kept so
+        # that the measurement can be repeated) run only when named with --only
+        if not only and (t == "experimental" or (t == "thorough" and tier != "thorough")):
             continue
         plan.append(name)
     unlisted = [n for n in meta if n not in p["harnesses"]]
